@@ -136,6 +136,9 @@ def define():
     ins("Wrapper", False, "none", "heap", "heap", "Z0D")
     ins("Raw", True, "none", "heap", "heap", "Z0")
     rem("Remove", "Drop", "none", "heap", "heap", "Z0D")
+    rem("SwapRemove", "Drop", "none", "heap", "heap", "Z0D")
+    rem("SwapRemove", "PushY", "none", "stack", "heap", "Z0", tier="rot2")
+    rem("Pop", "Downcast", "none", "heap", "heap", "Z0D", tier="rot2")
     # class M / L: concrete shapes in rotation (quick), all in thorough
     for elem in ("T12", "Q16", "D24D", "A32", "A64", "L160D"):
         for (ln, idx) in ((3, 0), (3, 1), (2, 2), (3, 3)):
